@@ -322,12 +322,13 @@ def cq_bool(b):
 def run_impl(script, payload, timeout=900, extra_env=None, pyflags=()):
     env = dict(os.environ)
     env["PYTHONPATH"] = REPO
-    env.setdefault("PYTHONHASHSEED", "0")
-    env["PYTHONHASHSEED"] = env.get("ICV_HASHSEED", "0")
     env["PYTHONDONTWRITEBYTECODE"] = "1"
     env.pop("ICONTRACT_SLOW", None)
+    env.pop("ICV_HASHSEED", None)
     if extra_env:
         env.update(extra_env)
+    # the hash seed of the driver: fixed, unless the check varies it on purpose (C20)
+    env["PYTHONHASHSEED"] = env.get("ICV_HASHSEED", "0")
     p = subprocess.run([PY, *pyflags, os.path.join(VERIF, "harness", script)], input=json.dumps(payload),
                        capture_output=True, text=True, env=env, timeout=timeout, cwd=workdir())
     if p.returncode != 0:
